@@ -145,6 +145,11 @@ class Ctx:
         rp = os.path.join(rdir, re.sub(r'[^\w.-]', '_', o.key)[:120] + '.json')
         rec = {'property': self.pid, 'obligation': o.key, 'model': {k: v for k, v in (o.model or {}).items()}, 'smt2': getattr(o, 'file', None)}
         verdict, info = replay_m.replay(o, os.path.join(self.logdir, 'mreplay.log'))
+        if verdict == 'none':
+            # no native driver for this obligation (handler glue, leaf equivalences): re-evaluate the solver's model on the MIR-derived
+            # path condition and goal with Python integers — a model that satisfies the path and falsifies the goal is a concrete run of
+            # the real function's MIR (callee stubs take the values the model gives them)
+            verdict, info = self._model_check(o)
         rec['native'] = info
         json.dump(rec, open(rp, 'w'), indent=1, default=str)
         if verdict == 'violates':
@@ -153,6 +158,26 @@ class Ctx:
             self.add(key, 'M', 'fault', o.time, f'solver model does not reproduce natively (encoding wrong?): {info}', True, sample, rp)
         else:
             self.add(key, 'M', 'fault', o.time, f'sat, but no native replay available for this obligation: {info}', True, sample, rp)
+
+    @staticmethod
+    def _model_check(o):
+        from . import term as T
+        env = dict(o.model or {})
+        for n in T.DECLS:
+            if env.get(n) is None: env[n] = T.RANGES[n][0] or 0
+        for n in T.BDECLS:
+            if env.get(n) is None: env[n] = False
+        try:
+            terms = list(o.hints) + list(o.pc) + [o.goal]
+            if getattr(o, 'abstract_div', False): return 'none', 'model re-evaluation not available for abstracted divisions'
+            ok_pc = all(T.evaluate(c, env) for c in terms[:-1])
+            g = T.evaluate(o.goal, env)
+        except Exception as e:
+            return 'none', f'model re-evaluation failed: {e}'
+        if ok_pc and not g:
+            shown = {k: v for k, v in env.items() if k in (o.model or {})}
+            return 'violates', 'MIR-level replay: the model satisfies the path condition of the real function and falsifies the goal: ' + str(shown)[:600]
+        return 'holds', 'the solver model does not satisfy the path condition / falsify the goal when re-evaluated'
 
     # ------------------------------------------------------------------ engine K
     def run_kani(self, files):
